@@ -404,7 +404,36 @@ theorem foldl_erase_absent (ks : List Key) (o : PObj) (g : List (Key × PObj)) (
     exact ih
 
 theorem extend_nil (p : Plane) : extend p [] = p := rfl
-theorem extend_cons (p : Plane) (o : PObj) (os : List PObj) : extend p (o :: os) = extend (add p o) os := rfl
+theorem extend_cons (p : Plane) (o : PObj) (os : List PObj) : extend p (o :: os) = extend (addPy p o) os := rfl
+
+/-- For a new object the whole of `Plane.add` is the insertion proper. -/
+theorem addPy_fresh (p : Plane) (o : PObj) (h1 : o.id ∉ p.objs) (h2 : o ∉ p.seq) : addPy p o = add p o := by
+  simp [addPy, h1, h2]
+
+/-- Adding an object that is already in the index changes nothing. -/
+theorem addPy_live (p : Plane) (o : PObj) (h : o.id ∈ p.objs) : addPy p o = p := by
+  simp [addPy, h]
+
+theorem addPy_readd (p : Plane) (o : PObj) (h1 : o.id ∉ p.objs) (h2 : o ∈ p.seq) :
+    addPy p o = add (forget p o) o := by
+  simp [addPy, h1, h2]
+
+theorem filter_erase_of_false {α : Type} [DecidableEq α] (f : α → Bool) (a : α) (h : f a = false) :
+    ∀ l : List α, (l.erase a).filter f = l.filter f
+  | [] => rfl
+  | x :: l => by
+    by_cases hx : x = a
+    · subst hx
+      rw [List.erase_cons_head, List.filter_cons, h]
+      simp
+    · rw [List.erase_cons_tail (by simpa using hx), List.filter_cons, List.filter_cons,
+        filter_erase_of_false f a h l]
+
+theorem getrange_forget (p : Plane) (o : PObj) (b : Rect) : getrange (forget p o) b = getrange p b :=
+  getrange_congr ⟨rfl, rfl, rfl, rfl, rfl⟩ b
+
+theorem cells_forget (p : Plane) (o : PObj) (b : Rect) : cells? (forget p o) b = cells? p b :=
+  cells?_congr ⟨rfl, rfl, rfl, rfl, rfl⟩ b
 
 /-- Lists of distinct numbers with the same members have the same length. -/
 theorem length_eq_of_nodup_of_mem_iff {l₁ l₂ : List Nat} (h₁ : l₁.Nodup) (h₂ : l₂.Nodup)
